@@ -10,7 +10,7 @@ PROP = dict(
                     "clone/consume against the protocol model; documented denotations are compared with closed forms.  Exploration, not proof."),
         level_note=("trusts the protocol model and closed forms in harness/c19_iter.c, glibc strtod/powl, gcc ASan+UBSan (+LSan at exit); "
                     "closed forms only for documented denotations (see notes/C19.md)"),
-        legs=[dict(name="c19_iter", src=["c19_iter.c"], libs=["mptplot", "mptcore"], batch=256, lsan=True,
+        legs=[dict(name="c19_iter", memcheck=1500, src=["c19_iter.c"], libs=["mptplot", "mptcore"], batch=256, lsan=True,
                    floors={"create:accepted": 80000, "create:refused": 10000, "iterator::value": 2000000, "iterator::advance": 2000000,
                            "iterator::reset": 200000, "metatype::clone": 80000, "monitor:clones-walked": 80000, "monitor:clone-elements": 200000,
                            "monitor:closed-form-count": 50000, "monitor:closed-form-values": 500000, "monitor:second-creation-compared": 80000,
